@@ -186,6 +186,31 @@ func (in *Interp) installStubs4() {
 		}
 		return nil
 	}
+	// sync.Pool: a LIFO free list per pool object (the contract allows any element or New())
+	S["(*sync.Pool).Get"] = func(in *Interp, a []Value) Value {
+		p := a[0].(Ptr)
+		po := p.O.Cells[p.I].(*Obj)
+		if l := in.pools[po]; len(l) > 0 {
+			v := l[len(l)-1]
+			in.pools[po] = l[:len(l)-1]
+			return v
+		}
+		for _, c := range po.Cells {
+			if cl, ok := c.(*Closure); ok && cl != nil {
+				return in.callValue(cl, nil)
+			}
+		}
+		return Iface{}
+	}
+	S["(*sync.Pool).Put"] = func(in *Interp, a []Value) Value {
+		p := a[0].(Ptr)
+		if in.pools == nil {
+			in.pools = map[*Obj][]Value{}
+		}
+		po := p.O.Cells[p.I].(*Obj)
+		in.pools[po] = append(in.pools[po], a[1])
+		return nil
+	}
 	// ---- regexp: Go's engine is trusted and run natively on concrete operands ----
 	S["regexp.Compile"] = func(in *Interp, a []Value) Value {
 		s0 := a[0].(Str)
